@@ -129,6 +129,23 @@ static const uint32_t LZ[MAXX][2] = {
 	{ 17, 29918 },	/* x = ae8a4b6645fbd5af6366... */
 	{ 172, 80286 },	/* x = 07f35661afec4f64be26... */
 	{ 212, 3520 },	/* x = 5f5b615d18dcc81a1ae7... */
+	/* --deep: private values 24..39 */
+	{ 170, 26318 },	/* x = 00000000000000000000... */
+	{ 89, 59963 },	/* x = 00000000000000000000... */
+	{ 497, 41518 },	/* x = 00000000000000000000... */
+	{ 82, 31988 },	/* x = 00000000000000000000... */
+	{ 699, 47740 },	/* x = 00000000000000010000... */
+	{ 24, 390 },	/* x = c0000000000000000000... */
+	{ 372, 39589 },	/* x = aaaaaaaaaaaaaaaaaaaa... */
+	{ 28, 18615 },	/* x = 55555555555555555555... */
+	{ 302, 143996 },	/* x = 7fffffffffffffffffff... */
+	{ 47, 163508 },	/* x = ffffffffffffffffffff... */
+	{ 701, 71430 },	/* x = ed1a3303ebb7ce95e230... */
+	{ 713, 13286 },	/* x = 45823eff55a7474a3df0... */
+	{ 37, 181064 },	/* x = 9eeb49fabe98c10099b1... */
+	{ 124, 59215 },	/* x = f65354f527883bb6f471... */
+	{ 81, 146905 },	/* x = 4ebc5ff19179b46b4f32... */
+	{ 157, 24768 },	/* x = a7246aecfa692e21abf2... */
 };
 
 static void
